@@ -226,6 +226,27 @@ def load_frames(path, fmt):
     return got, err, [w for w in wl if not issubclass(w.category, ResourceWarning)]
 
 
+def load_frames_exact(path, fmt, n):
+    """A consumer that takes exactly n frames with next() and then closes the iterator (islice / zip / a known frame count)."""
+    import iodata
+
+    got = []
+    err = None
+    with warnings.catch_warnings(record=True) as wl:
+        warnings.simplefilter("always")
+        it = iodata.load_many(path, fmt=fmt)
+        try:
+            for _ in range(n):
+                got.append(next(it))
+        except StopIteration:
+            pass
+        except Exception as exc:
+            err = exc
+        finally:
+            it.close()
+    return got, err, [w for w in wl if not issubclass(w.category, ResourceWarning)]
+
+
 def frame_matches(d, exp):
     return base.compare(d, exp)
 
@@ -304,6 +325,16 @@ def case_load(case):
                         viols.append(_v("partial-frame-silent", f"{tagb}: cut at line {c}: {what} frame {k} yielded with wrong data "
                                         f"({mm[0][0]}) and neither warning nor error"))
                         break
+                    if mm and err is None and wl and k == len(got) - 1:
+                        # a partial last frame announced by a warning: the warning must also reach a consumer that takes exactly
+                        # this many frames and stops (it never asks for the end of the sequence)
+                        got2, err2, wl2 = load_frames_exact(path, fmt, len(got))
+                        counters["exact_consumers"] = counters.get("exact_consumers", 0) + 1
+                        counters["load_many_runs"] += 1
+                        if len(got2) == len(got) and err2 is None and not wl2:
+                            viols.append(_v("partial-frame-silent", f"{tagb}: cut at line {c}: a consumer taking exactly {len(got)} frames "
+                                            f"gets the partial frame {k} ({mm[0][0]}) with neither warning nor error"))
+                            break
                 if len(got) > ncomplete and not (err is not None or wl):
                     # a frame beyond the complete ones was yielded silently: it must at least be identical to the true frame
                     pass
